@@ -436,6 +436,31 @@ pub fn eof_programs() -> Vec<(String, Program)> {
         }
         code.push(Item::Label("start".into()));
         v.push((format!("last={} start-at-end", lname), Program { data: vec![], code }));
+        // a while loop as the whole body of a procedure: the last instruction is an unconditional jump back, the exit
+        // label stands directly before the closing brace (one or two labels), so leaving the loop is the implied ret
+        for nlabels in [1usize, 2] {
+            let mut body: Vec<Item> = vec![
+                i0("mov", vec![r(R16::CX), imm(2)]),
+                Item::Label("top".into()),
+                i0("cmp", vec![r(R16::CX), imm(0)]),
+                i0("je", vec![name(if nlabels == 2 { "done2" } else { "done" })]),
+                i0("add", vec![r(R16::BX), imm(5)]),
+                i0("sub", vec![r(R16::CX), imm(1)]),
+                i0("jmp", vec![name("top")]),
+                Item::Label("done".into()),
+            ];
+            if nlabels == 2 {
+                body.push(Item::Label("done2".into()));
+            }
+            let mut code: Vec<Item> = vec![Item::Proc { name: "w".into(), body }, Item::Proc { name: "after_w".into(), body: vec![i0("mov", vec![r(R16::DX), imm(0xDEAD)])] }, Item::Label("start".into())];
+            code.push(i0("call", vec![name("w")]));
+            code.push(i0("add", vec![r(R16::BX), imm(1)]));
+            code.push(Item::Print(PrintStmt::Reg));
+            if let Some(l) = last {
+                code.push(i0(l, vec![]));
+            }
+            v.push((format!("last={} while-loop-procedure labels={}", lname, nlabels), Program { data: vec![], code }));
+        }
         // a procedure whose call is the last instruction; a label behind it
         let mut code: Vec<Item> = vec![Item::Proc { name: "f".into(), body: vec![i0("add", vec![r(R16::BX), imm(5)])] }, Item::Label("start".into())];
         code.push(i0("call", vec![name("f")]));
